@@ -8,10 +8,15 @@ package main
 import (
 	"bytes"
 	"fmt"
+	"go/ast"
+	"go/parser"
+	"go/token"
 	"os"
 	"os/exec"
+	"path/filepath"
 	"reflect"
 	"regexp"
+	"runtime"
 	"runtime/debug"
 	"sort"
 	"strings"
@@ -107,6 +112,57 @@ func c15tagOfKind() map[string]string {
 	}
 	res["ZZUNKNOWN"] = probeKind("ZZUNKNOWN")
 	return res
+}
+
+// c15concurrencySites parses the sources of package q (located through the file that defines
+// q.NewParser) and lists go statements and calls of a function whose name contains WorkerPool.
+func c15concurrencySites() (sites []string, ok bool) {
+	defer func() {
+		if recover() != nil {
+			sites, ok = nil, false
+		}
+	}()
+	fn := runtime.FuncForPC(reflect.ValueOf(q.NewParser).Pointer())
+	if fn == nil {
+		return nil, false
+	}
+	file, _ := fn.FileLine(fn.Entry())
+	dir := filepath.Dir(file)
+	fset := token.NewFileSet()
+	pkgs, err := parser.ParseDir(fset, dir, func(fi os.FileInfo) bool { return !strings.HasSuffix(fi.Name(), "_test.go") }, 0)
+	if err != nil || len(pkgs) == 0 {
+		return nil, false
+	}
+	for _, pkg := range pkgs {
+		for name, f := range pkg.Files {
+			for _, decl := range f.Decls {
+				fd, isFn := decl.(*ast.FuncDecl)
+				if !isFn || fd.Body == nil {
+					continue
+				}
+				ast.Inspect(fd.Body, func(n ast.Node) bool {
+					switch x := n.(type) {
+					case *ast.GoStmt:
+						sites = append(sites, filepath.Base(name)+":"+fd.Name.Name+": go statement")
+					case *ast.CallExpr:
+						callee := ""
+						switch f := x.Fun.(type) {
+						case *ast.Ident:
+							callee = f.Name
+						case *ast.SelectorExpr:
+							callee = f.Sel.Name
+						}
+						if strings.Contains(callee, "WorkerPool") {
+							sites = append(sites, filepath.Base(name)+":"+fd.Name.Name+": "+callee)
+						}
+					}
+					return true
+				})
+			}
+		}
+	}
+	sort.Strings(sites)
+	return sites, true
 }
 
 func c15probeClass(query string) (cls string) {
@@ -361,6 +417,23 @@ func init() {
 			defer func() { recover() }()
 			d, _ := gedcom.NewDocumentFromString("0 HEAD\n")
 			fmt.Fprintf(&b, "/-- Document.MaxLivingAge of a decoded document -/\ndef maxLivingAge : Nat := %d\n\n", int(d.MaxLivingAge))
+		}()
+
+		// --- where package q starts goroutines (go/ast over its non-test sources): the single deferred
+		// recover of Engine.Evaluate only protects the goroutine that called it
+		func() {
+			sites, ok := c15concurrencySites()
+			b.WriteString("/-- `go` statements and worker-pool calls in the non-test sources of package q\n")
+			b.WriteString("    (`<file>:<function>: <what>`); `none`: the sources were not found -/\n")
+			if !ok {
+				b.WriteString("def concurrencySites : Option (List String) := none\n\n")
+				return
+			}
+			var qs []string
+			for _, x := range sites {
+				qs = append(qs, fmt.Sprintf("%q", x))
+			}
+			fmt.Fprintf(&b, "def concurrencySites : Option (List String) := some [%s]\n\n", strings.Join(qs, ", "))
 		}()
 
 		// --- flags
